@@ -1,3 +1,4 @@
 ---- MODULE MC_TightPairs ----
-EXTENDS TightPairs
+EXTENDS TightPairs, Json
+Export == phase = "done" => PrintT(ToJson([n |-> nc, picks |-> picks, lpairs |-> lpairs, left |-> left, pairs |-> sample]))
 ====
